@@ -8,22 +8,32 @@ TRUSTED = [
     "Lean 4 kernel; axioms allowed: propext, Classical.choice, Quot.sound (audited per theorem)",
     "model KyroModel/Persist/{Model,Ops}.lean at the granularity of logical actions; tie: for every effect boundary of every op the real strict recover on the materialised directory is compared with the model's recovery of the corresponding action prefix",
     "FS shim + crash-state materialiser (kill model: every completed effect persists; torn prefixes of frame writes)",
-    "not proved: that a torn frame is ignored / publication is atomic at byte level (validated by the enumeration); power loss and periodic fsync (see DESIGN.md)",
+    "not proved: that a torn frame is ignored / publication is atomic at byte level (validated by the enumeration); the power-loss model is reduced to the kill model by ENUMERATION (every power-loss directory of every instant is recovered by the real code), not by a theorem",
 ]
 
 
 def gen(thorough, seed):
     rng = rng_for(seed, "C01/persist")
     n = 500 if thorough else 60
-    return [persist.gen_case(rng, n_ops=35 if thorough else 18, crash=True, torn=(i % 2 == 0)) for i in range(n)]
+    cases = [persist.gen_case(rng, n_ops=35 if thorough else 18, crash=True, torn=(i % 2 == 0)) for i in range(n)]
+    # second failure model (power loss, fsync-every-write): at every effect boundary also every directory a power failure
+    # may leave - per file only the bytes of its last fsync or everything, a prefix of the un-synced directory changes
+    for i, c in enumerate(cases):
+        if i % 3 == 0 and " fsync=always" in c[0]:
+            c[0] += " ploss=1"
+    return cases
 
 
 def run(tier, seed, replay):
     return run_persist_property(
         "C01", MODULE, TRUSTED, tier, seed, replay, gen,
-        {"c01", "c01-restart-fails", "c01-batch-partial", "c03", "c03-index-reject", "panic"},
+        {"c01", "c01-restart-fails", "c01-batch-partial", "c01-power-loss", "c03", "c03-index-reject", "panic"},
         "seeded random histories as for C02, with EXHAUSTIVE kill-point enumeration per history: the data directory is "
         "materialised at every file-system effect boundary of every operation (writes, fsyncs, renames, unlinks, truncates; "
         "snapshot, rotation, compaction and start-up included) and at torn prefixes (1,3,4,5,len-1 bytes) of every frame "
-        "write; the real strict recover runs on each; outcome must be acked or acked+in-flight; evaluations = kill points",
-        ["process-kill failure model", "power-loss / periodic fsync not covered by this run"])
+        "write; the real strict recover runs on each; outcome must be acked or acked+in-flight; evaluations = kill points. In a "
+        "third of the histories the POWER-LOSS model runs at the same instants (fsync-every-write): per file the content of its "
+        "last fsync/fdatasync or everything written, and every prefix of the directory changes (create/rename/unlink) made since "
+        "the last directory fsync; each distinct directory is recovered by the real code and must also be acked or acked+in-flight",
+        ["power loss: whole-file granularity for un-synced bytes (synced-only or all), suffixes of un-synced directory changes",
+         "periodic-fsync clause: see coverage.periodic"])
